@@ -84,6 +84,15 @@ def synthetic_task(task):
                 rng.shuffle(order)
                 tu.compute_log_S([kids[i] for i in order])
                 part.count("evaluations")
+            # growing child lists that extend an earlier list in the same fold order (a fold step served from the
+            # pairwise cache must still be the value that was stored), forwards and backwards
+            for seq in (kids, kids[::-1]):
+                for k in range(1, len(seq) + 1):
+                    tu.compute_log_S(seq[:k])
+                    part.count("evaluations")
+            extra = gen.make_values(rng, 2, D, G, "smooth")
+            tu.compute_log_S(kids + extra[:1])
+            tu.compute_log_S(kids + extra)
             # the same set of distinct arrays with different multiplicities, and one-ulp neighbours at the far end
             A, Dd = kids[0], gen.make_values(rng, 1, D, G, "moderate")[0]
             for combo in ([A], [A, A], [A, A, A], [A, Dd], [A, Dd, A], [Dd, A, A], [Dd], [Dd, Dd], [A]):
@@ -151,6 +160,49 @@ def synthetic_task(task):
     return None, part
 
 
+def fft_task(task):
+    """The two array caches on the FFT path (1000 grid points): evaluation histories over related child lists."""
+    from vlib import cache_shadow
+    from vlib.harness import Partial, describe_exception
+    import phyclone.tree.utils as tu
+
+    cache_shadow.install()
+    cache_shadow.reset()
+    tu.compute_log_S.cache_clear()
+    tu._convolve_two_children.cache_clear()
+    part = Partial()
+    D, G = task["D"], task["G"]
+    try:
+        for c in range(task["count"]):
+            rng = np.random.default_rng([task["seed"], task["shard"], c, 1000])
+            kids = gen.make_values(rng, 4, D, G, ["smooth", "moderate"][c % 2])
+            a, b, c2, d = kids
+            for seq in ([a, b], [c2, a, b], [a, b], [b, a], [a, b, c2], [a, b, c2, d], [d, c2], [c2, d, a], [a, b]):
+                tu.compute_log_S(seq)
+                part.count("evaluations")
+            tu._convolve_two_children(a, b)
+            tu._convolve_two_children(c2, d)
+            tu._convolve_two_children(a, b)
+            part.see("fft|%d|%d|%d" % (D, G, c))
+    except Exception as e:
+        et, where, msg = describe_exception(e)
+        if where == "outside-repo":
+            import traceback
+            part.inconc("harness error: " + traceback.format_exc()[-900:])
+        else:
+            part.violation("%s in %s during an FFT-path call history" % (et, where), {"msg": msg})
+    for fl in cache_shadow.FAILS:
+        part.violation(fl["what"] + " [FFT path, %d grid points]" % G, {"detail": fl["detail"], "shard": task["shard"]})
+    for k, v in cache_shadow.STATS.items():
+        if k.endswith("_max_dev"):
+            part.maxi("fft_" + k, v)
+        else:
+            part.count("fft_" + k, int(v))
+    tu.compute_log_S.cache_clear()
+    tu._convolve_two_children.cache_clear()
+    return None, part
+
+
 def run(ctx):
     quick = ctx.tier == "quick"
     ctx.rule = ("every call of the five memoised entry points during instrumented chain runs (semi-/fully-adapted/bootstrap, "
@@ -165,6 +217,11 @@ def run(ctx):
     ctx.map("checks.c14", "chain_task", tasks, timeout=3000)
     tasks = [{"seed": ctx.seed, "shard": i, "count": 10 if quick else 150} for i in range(shards)]
     ctx.map("checks.c14", "synthetic_task", tasks, timeout=3000)
+    tasks = [{"seed": ctx.seed, "shard": i, "count": 2 if quick else 10, "D": 1 + i % 2, "G": [1000, 1001][i % 2]}
+             for i in range(4 if quick else 16)]
+    ctx.map("checks.c14", "fft_task", tasks, timeout=3000)
+    if ctx.counters.get("fft_pairwise_convolution_hits", 0) < 4:
+        ctx.inconc("FFT-path pairwise cache hits not observed")
     for name, m in MIN_HITS.items():
         if ctx.counters.get(name + "_hits", 0) < m:
             ctx.inconc("cache %s: only %d hits observed (minimum %d)" % (name, ctx.counters.get(name + "_hits", 0), m))
